@@ -519,12 +519,26 @@ func runRewriteCases(seed uint64, n int, outDir string, extra map[string]interfa
 	defer fout.Close()
 	defer fsrc.Close()
 	m := minify.New()
-	done, skipped, changed := 0, 0, 0
+	done, skipped, changed, bareN := 0, 0, 0, 0
 	for k := 0; k < n; k++ {
 		g := &rwgen{r: r.Fork()}
 		e := g.expr(1 + r.Intn(4))
+		// one case in three is a bare expression statement (position precedence OpExpr: the (a,b) op c unwrapping can fire);
+		// roots that statement-level rewrites of stmtlist.go touch (conditionals, &&, ||, !) are kept under `x0 =`
+		bare := k%3 == 0 && e.kind == "B" && e.op != "AndToken" && e.op != "OrToken" && e.op != "CommaToken" && e.op != "EqToken"
+		if bare {
+			// make the left operand a parenthesised comma list more often
+			if r.Intn(2) == 0 {
+				_, lf, _ := binInfo(e.op)
+				_ = lf
+				l := &pexpr{kind: "B", op: "CommaToken", kids: []*pexpr{g.fit(g.expr(1), 1), g.fit(g.expr(2), 1)}}
+				e.kids[0] = &pexpr{kind: "G", kids: []*pexpr{l}}
+			}
+		}
 		var src strings.Builder
-		src.WriteString("x0 = ")
+		if !bare {
+			src.WriteString("x0 = ")
+		}
 		e.source(&src)
 		var out bytes.Buffer
 		if err := (&minjs.Minifier{KeepVarNames: true}).Minify(m, &out, strings.NewReader(src.String()), nil); err != nil {
@@ -532,20 +546,33 @@ func runRewriteCases(seed uint64, n int, outDir string, extra map[string]interfa
 			continue
 		}
 		toks := jsTokens(out.String())
-		if len(toks) < 2 || toks[0] != "x0" || toks[1] != "=" {
-			skipped++
-			continue
+		kind := "jsrw0"
+		if !bare {
+			if len(toks) < 2 || toks[0] != "x0" || toks[1] != "=" {
+				skipped++
+				continue
+			}
+			toks = toks[2:]
+			kind = "jsrw"
 		}
 		var sx strings.Builder
 		e.sexpr(&sx)
-		fmt.Fprintf(fin, "jsrw\t%s\n", strings.TrimSpace(sx.String()))
-		fmt.Fprintf(fout, "%s\n", strings.Join(toks[2:], " "))
+		fmt.Fprintf(fin, "%s\t%s\n", kind, strings.TrimSpace(sx.String()))
+		fmt.Fprintf(fout, "%s\n", strings.Join(toks, " "))
 		fmt.Fprintf(fsrc, "%s\n", strings.ReplaceAll(src.String(), "\n", " "))
 		done++
-		if strings.Join(jsTokens(src.String())[2:], " ") != strings.Join(toks[2:], " ") {
+		st := jsTokens(src.String())
+		if !bare {
+			st = st[2:]
+		}
+		if strings.Join(st, " ") != strings.Join(toks, " ") {
 			changed++
 		}
+		if bare {
+			bareN++
+		}
 	}
+	extra["jsrw_bare_statements"] = bareN
 	extra["jsrw_expressions"] = done
 	extra["jsrw_skipped"] = skipped
 	extra["jsrw_rewritten_or_regrouped"] = changed
